@@ -132,8 +132,48 @@ static void fini(void) {
     pv_set_flag("exhaustive.month_boundaries(1025 x 4 offsets x 2 clock sources)", true);
     pv_set_flag("exhaustive.range_sweep_every_61s", pv.tier == 1);
 }
+/* ---------------------------------------------------------------- the same clauses while other threads create and transform their own seeds */
+static bool conc_iter(pv_rng* r, int iter, void* user, char* err, size_t errsz) {
+    (void)iter; (void)user;
+    uint64_t t;
+    switch (pv_randn(r, 4)) {
+    case 0: t = PV_EPOCH + (uint64_t)pv_randn(r, 1024) * PV_STEP + (uint64_t)pv_randn(r, 3) - 1; break;     /* around a month boundary */
+    case 1: { static const uint64_t SP[] = { 0, 1, PV_EPOCH - 1, PV_EPOCH, UINT64_MAX, UINT64_MAX - 1, 1ull << 32, RANGE_END - 1, RANGE_END }; t = SP[pv_randn(r, sizeof SP / sizeof *SP)]; break; }
+    default: t = PV_EPOCH + pv_rand64(r) % (1024 * PV_STEP); break;
+    }
+    pv_w->time_value = t;
+    polyseed_data* s = NULL; int st = pv_api_create(0, &s);
+    if (st != POLYSEED_OK) { snprintf(err, errsz, "create at t=%llu -> %s", (unsigned long long)t, pv_status_name(st)); return false; }
+    uint64_t want = pv_m_birthday_time(pv_m_birthday_of(t));
+    bool ok = true;
+    uint64_t B = pv_api_get_birthday(s);
+    if (B != want) { ok = false; snprintf(err, errsz, "t=%llu: birthday %llu, model %llu", (unsigned long long)t, (unsigned long long)B, (unsigned long long)want); }
+    /* phrase, storage and encryption keep it */
+    pv_mlang* L; do { L = &pv_langs[pv_randn(r, (uint32_t)pv_nlangs)]; } while (!L->lib || !strncmp(L->key, "zh", 2));
+    unsigned coin = pv_gen_coin(r);
+    char* out = malloc(POLYSEED_STR_SIZE); uint8_t* img = malloc(32);
+    pv_api_encode(s, L->lib, coin, out);
+    polyseed_data* d = NULL; st = pv_api_decode_explicit(out, coin, L->lib, &d);
+    if (st != POLYSEED_OK) { ok = false; snprintf(err, errsz, "t=%llu: own %s phrase -> %s", (unsigned long long)t, L->name_en, pv_status_name(st)); }
+    else { uint64_t B2 = pv_api_get_birthday(d); if (B2 != want) { ok = false; snprintf(err, errsz, "t=%llu: birthday %llu after encode/decode (%s), model %llu", (unsigned long long)t, (unsigned long long)B2, L->name_en, (unsigned long long)want); } pv_api_free(d); }
+    pv_api_store(s, img); d = NULL; st = pv_api_load(img, &d);
+    if (st != POLYSEED_OK) { ok = false; snprintf(err, errsz, "t=%llu: own image -> %s", (unsigned long long)t, pv_status_name(st)); }
+    else { uint64_t B3 = pv_api_get_birthday(d); if (B3 != want) { ok = false; snprintf(err, errsz, "t=%llu: birthday %llu after store/load, model %llu", (unsigned long long)t, (unsigned long long)B3, (unsigned long long)want); } pv_api_free(d); }
+    pv_api_crypt(s, "pw"); if (pv_api_get_birthday(s) != want) { ok = false; snprintf(err, errsz, "t=%llu: birthday changed by encryption", (unsigned long long)t); }
+    free(out); free(img); pv_api_free(s);
+    return ok;
+}
+static uint64_t n_conc(void) { return pv_scaled(3, 100); }
+static void run_conc(uint64_t idx, pv_rng* rng) {
+    (void)idx; use_libc(false);
+    enum { NT = 8, IT = 1500 }; static pv_conc_result res[NT];
+    uint64_t seed = pv_rand64(rng);
+    pv_concurrent(NT, IT, seed, 35, conc_iter, NULL, res);
+    if (pv_concurrent_verdict(res, NT, IT, "C11/differs-under-concurrency", "concurrent.birthdays_equal_model")) PV_DISTINCT("nontrivial", seed);
+}
+
 int main(int argc, char** argv) {
     static const pv_section secs[] = { { "boundaries", n_bound, run_bound }, { "special", n_special, run_special }, { "random", n_random, run_random },
-                                       { "sweep", n_sweep, run_sweep }, { "persist", n_persist, run_persist } };
-    return pv_main(argc, argv, "C11", secs, 5, init, fini);
+                                       { "sweep", n_sweep, run_sweep }, { "persist", n_persist, run_persist }, { "concurrent", n_conc, run_conc } };
+    return pv_main(argc, argv, "C11", secs, 6, init, fini);
 }
